@@ -135,6 +135,12 @@ def constraint(kind, n, form="nlc"):
         a = [1.0] + [0.5] * (n - 1)
         return {"kind": "nl", "form": form, "funs": [{"kind": "aff", "a": a, "b": 0.25}],
                 "lb": [-INF], "ub": [0.0]}
+    if kind == "cubic_le":  # strongly nonlinear: many second-order-correction steps
+        return {"kind": "nl", "form": form, "funs": [{"kind": "cubic", "c": [0.25] * n}],
+                "lb": [-INF], "ub": [-0.5]}
+    if kind == "cubic_eq":
+        return {"kind": "nl", "form": form, "funs": [{"kind": "cubic", "c": [0.25] * n}],
+                "lb": [0.5], "ub": [0.5]}
     if kind == "nl_contra":  # ball <= -1 : impossible
         return {"kind": "nl", "form": form, "funs": [{"kind": "ball", "c": c, "r2": 0.0}],
                 "lb": [-INF], "ub": [-1.0]}
@@ -157,6 +163,9 @@ def cons_set(name, n, form="nlc"):
         "lin_eq+nl_eq": ["lin_eq", "ball_eq"],
         "two_nl": ["ball_le", "nl_aff_le"],
         "three_nl": ["ball_two", "nl_aff_le", "nl_vec"],
+        "cubic_le": ["cubic_le"],
+        "cubic_eq": ["cubic_eq"],
+        "lin+cubic": ["lin_le", "cubic_le"],
         "contra_lin": ["lin_contra"],
         "contra_nl": ["nl_contra"],
         "redund": ["lin_redund", "ball_le", "ball_le"],
